@@ -161,5 +161,13 @@ def _xarray_dataset(
     ds = xr.merge(to_merge, compat="override")
     for name in single_output_names:
         array = data_loader(name)
-        ds[name] = array if isinstance(array, np.ndarray) else ((), array)
+        if isinstance(array, np.ndarray) and array.ndim > 1:
+            # A plain n-d array variable needs dimension names of its own
+            ds[name] = (tuple(f"{name}_dim_{i}" for i in range(array.ndim)), array)
+        elif isinstance(array, list | tuple):
+            boxed: np.ndarray = np.empty((), dtype=object)  # a dimensionless variable holding the sequence
+            boxed[()] = array
+            ds[name] = ((), boxed)
+        else:
+            ds[name] = array if isinstance(array, np.ndarray) else ((), array)
     return ds
